@@ -988,3 +988,85 @@ def gather_scatter(ctx):
                   detail=[T.sx_show(expand(("var", k, None)), 200) for k in nvars] or None))
     obs += floor(obs, r, 4, "gather/scatter obligations")
     return obs
+
+
+# ---- exhaustive root search -----------------------------------------------------------------------
+
+CHIEN = "errorcode::decoding::chien_search"
+
+
+def root_cover(ctx):
+    """ROOT-COVER: chien_search tries every non-zero field element.  The error locator's roots are found by exhaustive
+    evaluation; a root that is never tried makes decode_gen report Malfunction for a correctable word (an error at the
+    position whose locator is the skipped power).  Structural clauses: the search loop runs over exactly the 255 exponents
+    0..=254, every iteration tests the running sum against zero and records primitive_power(i), and the per-coefficient
+    scaling runs in every iteration (no `continue`/`break`, no condition around it), over all coefficients."""
+    r = "ROOT-COVER"
+    f = ctx.facts()
+    b = f.thir.get(CHIEN)
+    need(b, r, CHIEN)
+    sts = T.stmts(b["body"], {"__noinline__": True})
+    site = T.span_str(b["span"])
+    obs = []
+    # the coefficient vector: all of `c`, reversed or not, converted - no skip/take/filter/step_by
+    cparam = b["params"][0]["pat"]["name"].split("#")[0] if b["params"] and b["params"][0].get("pat", {}).get("k") == "Bind" else None
+    need(cparam, r, CHIEN, "(coefficient parameter)")
+    allst = list(T.stmt_walk(sts))
+    gl = [s for s in allst if s[0] == "let" and s[2] and T.sx_calls(s[3], "Iterator::collect") and any(is_var(x, cparam) for x in T.sx_walk(s[3]))]
+    ok = len(gl) == 1 and not any(T.sx_calls(gl[0][3], "Iterator::" + a) for a in ("skip", "take", "filter", "step_by", "skip_while", "take_while"))
+    obs.append(Ob(r, "all-coefficients", ok, "the search evaluates the polynomial with every coefficient of its argument", site=site, detail=T.sx_show(gl[0][3], 200) if gl else None))
+    gname = gl[0][1].split("#")[0] if gl else None
+    loops = [s for s in allst if s[0] == "for" and gname and not any(is_var(x, gname) for x in T.sx_walk(s[2]))
+             and any(any(is_var(x, gname) for e in T.stmt_exprs(st) for x in T.sx_walk(e)) for st in T.stmt_walk(s[3]))]
+    need(len(loops) == 1, r, CHIEN, "(the search loop)")
+    lp = loops[0]
+    it = strip_into_iter(lp[2])
+    lo = hi = None
+    if it[0] == "call" and it[1].endswith("RangeInclusive::new") and len(it[2]) == 2 and it[2][0][0] == "lit" and it[2][1][0] == "lit":
+        lo, hi = it[2][0][1], it[2][1][1]
+    else:
+        rp = range_parts(it)
+        if rp and rp[0][0] == "lit" and rp[1][0] == "lit":
+            lo, hi = rp[0][1], rp[1][1] - 1
+    obs.append(Ob(r, "all-exponents", (lo, hi) == (0, 254), "the root search runs over the exponents 0..=254 - all 255 non-zero elements of GF(256) (found %s..=%s)" % (lo, hi), site=lp[4], detail=T.sx_show(lp[2])))
+    iv = lp[1][0].split("#")[0] if len(lp[1]) == 1 else None
+    body = lp[3]
+    skips = [st for st in T.stmt_walk(body) if st[0] in ("continue", "break", "return")]
+    obs.append(Ob(r, "no-skip", not skips, "no iteration of the search is cut short (no continue / break / return in the loop)", detail=[st[0] for st in skips]))
+    # the test: sum of the running terms == 0 -> push primitive_power(i)
+    lets = {s[1].split("#")[0]: s[3] for s in body if s[0] == "let" and not s[2]}
+    tests = [st for st in body if st[0] == "if" and isinstance(st[1], tuple) and st[1][0] != "iflet"]
+    okt = False
+    det = None
+    for st in tests:
+        c = st[1]
+        if c[0] == "call" and c[1].endswith("::eq") and len(c[2]) == 2:
+            a, z = c[2]
+            a = T.look_through(a, lets)
+            is_sum = a[0] == "call" and a[1].endswith("Iterator::sum") and any(is_var(x, gname) for x in T.sx_walk(a)) \
+                and not any(T.sx_calls(a, "Iterator::" + q) for q in ("skip", "take", "filter", "step_by"))
+            is_zero = z[0] == "adt" and z[1].endswith("galois::GF") and len(z[3]) == 1 and z[3][0][1] == ("lit", 0)
+            pushes = [x for s2 in st[2] for e in T.stmt_exprs(s2) for x in T.sx_calls(e, "Vec::push")]
+            okp = len(pushes) == 1 and pushes[0][2][1][0] == "call" and pushes[0][2][1][1].endswith("GF::primitive_power") and is_var(pushes[0][2][1][2][0], iv) and not st[3]
+            det = T.sx_show(c, 160)
+            if is_sum and is_zero and okp:
+                okt = True
+    obs.append(Ob(r, "root-test", okt, "every exponent i whose evaluation sums to zero is recorded as the root primitive_power(i)", detail=det))
+    # the scaling of the running terms: a top-level statement of the loop body, over all of gamma
+    def scale_loop(stl, var):
+        sc = [st for st in stl if st[0] == "for" and any(is_var(x, var) for x in T.sx_walk(st[2])) and T.sx_calls(st[2], "GF::primitive_powers")]
+        return len(sc) == 1 and not any(T.sx_calls(sc[0][2], "Iterator::" + q) for q in ("skip", "take", "filter", "step_by", "rev")) \
+            and len(sc[0][3]) == 1 and sc[0][3][0][0] == "expr" and sc[0][3][0][1][0] == "call" and sc[0][3][0][1][1].endswith("mul_assign")
+    oks = scale_loop(body, gname)
+    if not oks:
+        # the scaling may live in a private helper called, as a statement of the loop body, with the running terms
+        for st in body:
+            if st[0] == "expr" and st[1][0] == "call" and st[1][1].startswith("errorcode::") and len(st[1][2]) == 1 and any(is_var(x, gname) for x in T.sx_walk(st[1][2][0])):
+                hn = next((n for n in f.thir if T.canon(n) == st[1][1]), None)
+                if hn:
+                    hs = T.stmts(f.thir[hn]["body"], {"__noinline__": True})
+                    hp = f.thir[hn]["params"][0]["pat"]["name"].split("#")[0]
+                    oks = oks or (scale_loop(hs, hp) and len(hs) == 1)
+    obs.append(Ob(r, "advance", oks, "after every test each running term is multiplied by its power of the primitive element (all coefficients, every iteration)"))
+    obs += floor(obs, r, 5, "root search obligations")
+    return obs
